@@ -43,6 +43,7 @@ type env struct {
 	sigV           byte
 	schnorrSig     []byte
 	dst            []byte
+	dstA, dstB     []byte // two DIFFERENT domain separation tags longer than 255 bytes
 }
 
 func newEnv() *env {
@@ -71,6 +72,8 @@ func newEnv() *env {
 	e.sigR, e.sigS, e.sigV = lib.MkSC(r), lib.MkSC(s), v
 	e.schnorrSig, _ = ref.BIP340Sign(e.d, make([]byte, 32), e.msg)
 	e.dst = []byte("verif/C20-DST")
+	e.dstA = bytes.Repeat([]byte("A"), 300)
+	e.dstB = bytes.Repeat([]byte("B"), 257)
 	return e
 }
 
@@ -84,7 +87,7 @@ func (e *env) fingerprint() string {
 	pq, pqb := secec.VerifPubInternals(e.peerQ)
 	return fmt.Sprint(lib.Raw(e.P1), lib.Raw(e.P2), secp256k1.VerifScalarLimbs(e.S1), secp256k1.VerifScalarLimbs(e.S2),
 		secp256k1.VerifScalarLimbs(ks), lib.Raw(qp), qb, kpb, secp256k1.VerifScalarLimbs(dp), secp256k1.VerifScalarLimbs(dn), lib.Raw(sp), sx, lib.Raw(pq), pqb,
-		e.digest, e.msg, e.sigDER, e.sigRec, e.schnorrSig, e.dst, secp256k1.VerifScalarLimbs(e.sigR), secp256k1.VerifScalarLimbs(e.sigS))
+		e.digest, e.msg, e.sigDER, e.sigRec, e.schnorrSig, e.dst, e.dstA, e.dstB, secp256k1.VerifScalarLimbs(e.sigR), secp256k1.VerifScalarLimbs(e.sigS))
 }
 
 // tablesComplete compares both generator tables (hook) with a reference table built by affine
@@ -242,6 +245,26 @@ var ops = []cop{
 		return p.UncompressedBytes()
 	}, func(e *env) []byte {
 		p, _ := ref.HashToCurveRO([]byte("verif/C20-DST"), []byte("verif/C20 message"))
+		return p.Uncompressed()
+	}},
+	{"h2c RO(oversize DST A)", true, func(e *env) []byte {
+		p, err := h2c.Secp256k1_XMD_SHA256_SSWU_RO(e.dstA, e.msg)
+		if err != nil {
+			return []byte("error")
+		}
+		return p.UncompressedBytes()
+	}, func(e *env) []byte {
+		p, _ := ref.HashToCurveRO(bytes.Repeat([]byte("A"), 300), []byte("verif/C20 message"))
+		return p.Uncompressed()
+	}},
+	{"h2c NU(oversize DST B)", true, func(e *env) []byte {
+		p, err := h2c.Secp256k1_XMD_SHA256_SSWU_NU(e.dstB, e.msg)
+		if err != nil {
+			return []byte("error")
+		}
+		return p.UncompressedBytes()
+	}, func(e *env) []byte {
+		p, _ := ref.EncodeToCurveNU(bytes.Repeat([]byte("B"), 257), []byte("verif/C20 message"))
 		return p.Uncompressed()
 	}},
 	{"NewPrivateKey(bytes) (fresh object, shared tables)", true, func(e *env) []byte {
